@@ -496,7 +496,7 @@ class Stream(APIRegisterMixin):
                 try:
                     result = await asyncio.gather(*self._emit(x, metadata=metadata))
                 finally:
-                    del thread_state.asynchronous
+                    thread_state.asynchronous = False
                 return result
 
             sync(self.loop, _)
